@@ -129,7 +129,15 @@ def main():
         if "\r" in text:
             tsig = sig(XonshParser.parse_string, text.replace("\r\n", "\n").replace("\r", "\n"), mode="exec")
         fsig = _nopath(fsig, p)
-        out["cases"].append({"name": n, "file": fsig, "string": ssig, "translated": tsig, "opened": seen, "undecodable": undecodable})
+        located = None
+        if undecodable and fsig[0] == "syntax" and undecodable != "reference-decoding-disagrees-with-cpython":
+            # the refusal of bytes that are no text names a line of the file and quotes it
+            import re as _re2
+
+            raw_lines = _re2.split(rb"\r\n|\r|\n", raw)
+            located = bool(isinstance(fsig[3], int) and 1 <= fsig[3] <= len(raw_lines) and isinstance(fsig[7], str)
+                           and fsig[7].rstrip("\r\n") == raw_lines[fsig[3] - 1].decode("utf-8", "replace"))
+        out["cases"].append({"name": n, "file": fsig, "string": ssig, "translated": tsig, "opened": seen, "undecodable": undecodable, "located": located})
     # second pass: one path whose content is rewritten before every parse (an edited script parsed again in the same process):
     # the file entry point must see the current content, exactly as the fresh path did
     same = os.path.join(casedir, "_same_path.xsh")
